@@ -405,6 +405,9 @@ func c15EndToEnd(rc *runCtx, nseq int, files *c15Files, hist map[string]int, not
 			if err != nil {
 				return err
 			}
+			if np < 0 {
+				np = 0 // the collection is already above its quota (an earlier batch was wrongly accepted and is judged as such)
+			}
 			points := make([]models.Point, np)
 			for i := range points {
 				points[i] = models.Point{Id: c15Uuid(r), Data: c15Doc(docNo)}
